@@ -1,5 +1,5 @@
 SPECIFICATION Spec
 CONSTANTS MaxSegs = 3 MaxOps = 2 MaxOpsFail = 1 Defect = "none" Export = TRUE
-INVARIANTS OnlyNamedDeviation ReleasedIsPrefix CleanMeansEqual SourceErrorSurfaces
+INVARIANTS OnlyNamedDeviation ReleasedIsPrefix CleanMeansEqual SourceErrorSurfaces CacheIntact
 CONSTRAINT ExportScripts
 CHECK_DEADLOCK FALSE
